@@ -11,7 +11,7 @@ Proof.
   - exact I.
   - constructor; [intros [] | constructor].
   - intros f. split; [intros [H | []]; left; congruence | intros [H | H]; [left; congruence | discriminate]].
-  - intros fl [H | []] _. subst fl. auto.
+  - intros fl [H | []] _. subst fl. repeat split.
   - intros fl [H | []] E. subst fl. simpl in E. contradiction.
   - intros fl [H | []] E. subst fl. simpl in E. contradiction.
   - intros fl [H | []]. subst fl. simpl. split; [constructor; [intros [] | constructor] |].
@@ -315,12 +315,25 @@ Lemma init_gen_ext : forall v1 k1 v2 k2 req args, (forall x, v1 x = v2 x) -> (fo
   init_gen v1 k1 req args = init_gen v2 k2 req args.
 Proof. intros. unfold init_gen. rewrite (init_loop_ext v1 k1 v2 k2 args [] []); [reflexivity | assumption | assumption]. Qed.
 
+Lemma forallb_set_ext : forall (p : nat -> bool) l l', (forall x, In x l <-> In x l') -> forallb p l = forallb p l'.
+Proof.
+  intros p l l' H. destruct (forallb p l) eqn:E.
+  - symmetry. apply forallb_forall. intros x Hx. rewrite forallb_forall in E. apply E. apply H. exact Hx.
+  - destruct (forallb p l') eqn:E'; [| reflexivity]. rewrite <- E. apply forallb_forall. intros x Hx.
+    rewrite forallb_forall in E'. apply E'. apply H. exact Hx.
+Qed.
+Lemma init_gen_req_ext : forall v k req req' args, (forall x, In x req <-> In x req') -> init_gen v k req args = init_gen v k req' args.
+Proof.
+  intros v k req req' args H. unfold init_gen. destruct (init_loop v k args [] []) as [[u p] |]; [| reflexivity].
+  rewrite (forallb_set_ext _ req req' H). reflexivity.
+Qed.
 Lemma obs_make : forall st ss A f args, InvA st ss A -> defined (ss_decls ss) f = true ->
   make_instance st f args = s_make_code (ss_decls ss) f args.
 Proof.
   intros st ss A f args I Hd. destruct (obs_record st ss A I f Hd) as (fl & H1 & H2 & H3 & H4). unfold make_instance. rewrite H1.
   assert (Hfl : f_name fl <> vanilla) by congruence.
-  destruct (i_io _ _ _ I fl H2 Hfl) as [Q1 Q2]. rewrite H3 in Q1, Q2. rewrite Q2. unfold s_make_code. apply init_gen_ext.
+  destruct (i_io _ _ _ I fl H2 Hfl) as [Q1 Q2]. rewrite H3 in Q1, Q2. unfold s_make_code.
+  rewrite (init_gen_req_ext _ _ _ _ args Q2). apply init_gen_ext.
   - intros x. rewrite (initable_of_ext _ _ x Q1), (obs_vars st ss A I f Hd fl x H1). reflexivity.
   - intros x. rewrite (obs_keys st ss A I f Hd fl x H1). reflexivity.
 Qed.
@@ -337,6 +350,38 @@ Proof.
     apply Nat.eqb_eq in E1. apply Z.eqb_eq in E2. subst. f_equal. apply IH. exact H2. }
   intros [[u p] |] [[u' p'] |] H; simpl in H; try discriminate; [| reflexivity].
   apply andb_true_iff in H. destruct H as [H1 H2]. rewrite (L _ _ H1), (L _ _ H2). reflexivity.
+Qed.
+(* the guard g_init holds unless some flavor of the precedence list has the :inittable-instance-variables option
+   and no flavor of the list lists a variable (then the code reads the empty inherited set as "every variable") *)
+Lemma existsb_flat_map : forall {A} (p : nat -> bool) (g : A -> list nat) l,
+  existsb p (flat_map g l) = existsb (fun x => existsb p (g x)) l.
+Proof. induction l as [| a r IH]; simpl; [reflexivity |]. rewrite existsb_app, IH. reflexivity. Qed.
+Lemma init_res_eqb_refl : forall a, init_res_eqb a a = true.
+Proof.
+  assert (L : forall l : list (nat * Z),
+            (fix leq (l r : list (nat * Z)) := match l, r with [], [] => true
+               | x :: l', y :: r' => ((fst x =? fst y) && Z.eqb (snd x) (snd y)) && leq l' r' | _, _ => false end) l l = true).
+  { induction l as [| [k z] l IH]; [reflexivity |]. simpl. rewrite Nat.eqb_refl, Z.eqb_refl, IH. reflexivity. }
+  intros [[u p] |]; simpl; [rewrite !L; reflexivity | reflexivity].
+Qed.
+Lemma no_inits_nil : forall ds l, existsb (has_inits ds) l = false -> flat_map (s_initable ds) l = [].
+Proof.
+  induction l as [| g r IH]; intros H; [reflexivity |]. simpl in H. apply orb_false_iff in H. destruct H as [H1 H2].
+  simpl. rewrite (IH H2), app_nil_r. unfold has_inits in H1. unfold s_initable. destruct (decl_of ds g) as [d |]; [| reflexivity].
+  destruct (io_inits (d_io d)); [reflexivity | discriminate | discriminate].
+Qed.
+Theorem g_init_inherited : forall ds f args,
+  existsb (has_inits ds) (prec ds f) = false \/ s_initable_all ds f <> [] -> g_init ds f args = true.
+Proof.
+  intros ds f args Hc. unfold g_init.
+  assert (E : s_make_code ds f args = s_make ds f args); [| rewrite E; apply init_res_eqb_refl].
+  unfold s_make_code, s_make. apply init_gen_ext; [| reflexivity]. intros k. f_equal.
+  unfold s_initable_inh, s_initable_all in *. destruct Hc as [Hc | Hc].
+  - rewrite Hc, (no_inits_nil ds _ Hc). reflexivity.
+  - assert (Hh : existsb (has_inits ds) (prec ds f) = true).
+    { destruct (existsb (has_inits ds) (prec ds f)) eqn:E; [reflexivity |]. exfalso. apply Hc. apply no_inits_nil. exact E. }
+    rewrite Hh. unfold initable_of. destruct (flat_map (s_initable ds) (prec ds f)) as [| a l] eqn:El; [contradiction |].
+    rewrite <- El. apply existsb_flat_map.
 Qed.
 Theorem make_instance_by_precedence : forall h f args, wf h = true -> defined (decls h) f = true -> g_init (decls h) f args = true ->
   make_instance (final h) f args = s_make (decls h) f args.
